@@ -116,22 +116,22 @@ func lex(src string) ([]stok, error) {
 	return out, nil
 }
 
-type parser struct {
+type sparser struct {
 	toks []stok
 	p    int
 	pos  string
 }
 
-func (p *parser) peek() stok { return p.toks[p.p] }
-func (p *parser) next() stok { t := p.toks[p.p]; p.p++; return t }
-func (p *parser) accept(op string) bool {
+func (p *sparser) peek() stok { return p.toks[p.p] }
+func (p *sparser) next() stok { t := p.toks[p.p]; p.p++; return t }
+func (p *sparser) accept(op string) bool {
 	if t := p.peek(); t.k == "op" && t.s == op {
 		p.p++
 		return true
 	}
 	return false
 }
-func (p *parser) expect(op string) {
+func (p *sparser) expect(op string) {
 	if !p.accept(op) {
 		panic(fmt.Errorf("%s: expected %q, found %q", p.pos, op, p.peek().s))
 	}
@@ -142,7 +142,7 @@ func parseExpr(src, pos string) (n *Node, err error) {
 	if err != nil {
 		return nil, fmt.Errorf("%s: %v", pos, err)
 	}
-	p := &parser{toks: toks, pos: pos}
+	p := &sparser{toks: toks, pos: pos}
 	defer func() {
 		if r := recover(); r != nil {
 			if e, ok := r.(error); ok {
@@ -159,11 +159,11 @@ func parseExpr(src, pos string) (n *Node, err error) {
 	return n, nil
 }
 
-func (p *parser) bin(op string, a, b *Node) *Node {
+func (p *sparser) bin(op string, a, b *Node) *Node {
 	return &Node{Kind: "binary", Op: op, Kids: []*Node{a, b}, Pos: p.pos}
 }
 
-func (p *parser) parseIff() *Node {
+func (p *sparser) parseIff() *Node {
 	a := p.parseImp()
 	for p.accept("<==>") {
 		a = p.bin("<==>", a, p.parseImp())
@@ -171,7 +171,7 @@ func (p *parser) parseIff() *Node {
 	return a
 }
 
-func (p *parser) parseImp() *Node {
+func (p *sparser) parseImp() *Node {
 	a := p.parseCond()
 	if p.accept("==>") {
 		return p.bin("==>", a, p.parseImp())
@@ -179,7 +179,7 @@ func (p *parser) parseImp() *Node {
 	return a
 }
 
-func (p *parser) parseCond() *Node {
+func (p *sparser) parseCond() *Node {
 	a := p.parseOr()
 	if p.accept("?") {
 		b := p.parseCond()
@@ -190,7 +190,7 @@ func (p *parser) parseCond() *Node {
 	return a
 }
 
-func (p *parser) parseOr() *Node {
+func (p *sparser) parseOr() *Node {
 	a := p.parseAnd()
 	for p.accept("||") {
 		a = p.bin("||", a, p.parseAnd())
@@ -198,7 +198,7 @@ func (p *parser) parseOr() *Node {
 	return a
 }
 
-func (p *parser) parseAnd() *Node {
+func (p *sparser) parseAnd() *Node {
 	a := p.parseCmp()
 	for p.accept("&&") {
 		a = p.bin("&&", a, p.parseCmp())
@@ -206,7 +206,7 @@ func (p *parser) parseAnd() *Node {
 	return a
 }
 
-func (p *parser) parseCmp() *Node {
+func (p *sparser) parseCmp() *Node {
 	a := p.parseAdd()
 	for {
 		t := p.peek()
@@ -219,7 +219,7 @@ func (p *parser) parseCmp() *Node {
 	}
 }
 
-func (p *parser) parseAdd() *Node {
+func (p *sparser) parseAdd() *Node {
 	a := p.parseMul()
 	for {
 		t := p.peek()
@@ -232,7 +232,7 @@ func (p *parser) parseAdd() *Node {
 	}
 }
 
-func (p *parser) parseMul() *Node {
+func (p *sparser) parseMul() *Node {
 	a := p.parseUnary()
 	for {
 		t := p.peek()
@@ -245,7 +245,7 @@ func (p *parser) parseMul() *Node {
 	}
 }
 
-func (p *parser) parseUnary() *Node {
+func (p *sparser) parseUnary() *Node {
 	if p.accept("!") {
 		return &Node{Kind: "unary", Op: "!", Kids: []*Node{p.parseUnary()}, Pos: p.pos}
 	}
@@ -258,7 +258,7 @@ func (p *parser) parseUnary() *Node {
 	return p.parsePostfix()
 }
 
-func (p *parser) parsePostfix() *Node {
+func (p *sparser) parsePostfix() *Node {
 	a := p.parsePrimary()
 	for {
 		switch {
@@ -278,7 +278,7 @@ func (p *parser) parsePostfix() *Node {
 	}
 }
 
-func (p *parser) parsePrimary() *Node {
+func (p *sparser) parsePrimary() *Node {
 	t := p.next()
 	switch t.k {
 	case "num":
